@@ -8,28 +8,51 @@ Open Scope Z_scope.
 
 (* ---------- varint ---------- *)
 
-Lemma varint_go_roundtrip : forall fuel n rest,
-  (0 < fuel)%nat -> 0 <= n < 128 ^ Z.of_nat fuel ->
-  varint_dec fuel (varint_go fuel n ++ rest) = Some (n, rest).
+Lemma varint_dec_lim_S : forall m f b r,
+  varint_dec_lim m (S f) (b :: r) =
+  if b <? 128
+  then match f with O => if b <=? m then Some (b, r) else None | S _ => Some (b, r) end
+  else match varint_dec_lim m f r with Some (hi, r') => Some ((b - 128) + 128 * hi, r') | None => None end.
+Proof. reflexivity. Qed.
+
+Lemma pow128_succ : forall f : nat, 128 ^ Z.of_nat (S f) = 128 * 128 ^ Z.of_nat f.
+Proof. intros f. rewrite Nat2Z.inj_succ, Z.pow_succ_r by lia. reflexivity. Qed.
+
+Lemma pow128_pos : forall f : nat, 0 < 128 ^ Z.of_nat f.
+Proof. intros f. apply Z.pow_pos_nonneg; lia. Qed.
+
+(* what is written with at most `fuel` bytes and fits the last byte limit `m` is read back: the values below
+   128^(fuel-1) * (m+1), i.e. below 2^64 for (fuel, m) = (10, 1) and below 2^16 for (3, 3) *)
+Lemma varint_lim_roundtrip : forall m fuel n rest,
+  (0 < fuel)%nat -> 0 <= m < 128 -> 0 <= n < 128 ^ (Z.of_nat fuel - 1) * (m + 1) ->
+  varint_dec_lim m fuel (varint_go fuel n ++ rest) = Some (n, rest).
 Proof.
-  induction fuel as [|f IH]; intros n rest Hf Hn; [lia|].
-  rewrite Nat2Z.inj_succ, Z.pow_succ_r in Hn by lia.
+  intros m. induction fuel as [|f IH]; intros n rest Hf Hm Hn; [lia|].
+  replace (Z.of_nat (S f) - 1) with (Z.of_nat f) in Hn by lia.
   cbn [varint_go]. destruct (Z.ltb_spec n 128) as [Hlt|Hge].
-  - cbn [app varint_dec]. destruct (Z.ltb_spec n 128); [reflexivity | lia].
-  - cbn [app varint_dec].
+  - cbn [app]. rewrite varint_dec_lim_S. destruct (Z.ltb_spec n 128) as [_|Hc]; [|lia].
+    destruct f as [|f']; [|reflexivity].
+    change (128 ^ Z.of_nat 0) with 1 in Hn. destruct (Z.leb_spec n m) as [_|Hc]; [reflexivity | lia].
+  - cbn [app]. rewrite varint_dec_lim_S.
     destruct (Z.ltb_spec (n mod 128 + 128) 128) as [Hc|_].
     { pose proof (Z.mod_pos_bound n 128 eq_refl). lia. }
-    assert (Hf' : (0 < f)%nat).
-    { destruct f; [|lia]. change (128 ^ Z.of_nat 0) with 1 in Hn. lia. }
-    rewrite IH; [| exact Hf' | split; [apply Z.div_pos; lia | apply Z.div_lt_upper_bound; lia]].
-    f_equal. f_equal. pose proof (Z.div_mod n 128). lia.
+    destruct f as [|f'].
+    { change (128 ^ Z.of_nat 0) with 1 in Hn. lia. }
+    rewrite pow128_succ in Hn.
+    rewrite IH.
+    + f_equal. f_equal. pose proof (Z.div_mod n 128). lia.
+    + lia.
+    + exact Hm.
+    + replace (Z.of_nat (S f') - 1) with (Z.of_nat f') by lia.
+      split; [apply Z.div_pos; lia | apply Z.div_lt_upper_bound; lia].
 Qed.
 
 Lemma varint_roundtrip : forall n rest,
   0 <= n < 2 ^ 64 -> varint_dec 10 (varint n ++ rest) = Some (n, rest).
 Proof.
-  intros n rest Hn. unfold varint. apply varint_go_roundtrip; [lia|].
-  change (128 ^ Z.of_nat 10) with 1180591620717411303424.
+  intros n rest Hn. unfold varint, varint_dec. change (max_of_last_byte 10) with 1.
+  apply varint_lim_roundtrip; [lia | lia |].
+  change (128 ^ (Z.of_nat 10 - 1) * (1 + 1)) with 18446744073709551616.
   change (2 ^ 64) with 18446744073709551616 in Hn. lia.
 Qed.
 
@@ -74,7 +97,7 @@ Definition dec_i64 (bs : list Z) : option (Z * list Z) :=
 Definition dec_u8 (bs : list Z) : option (Z * list Z) :=
   match bs with b :: r => Some (b, r) | [] => None end.
 
-(* n items, one after the other (n is the fuel) *)
+(* n items, one after the other (n is the fuel): the specification of a sequence body *)
 Fixpoint dec_n {A} (d : list Z -> option (A * list Z)) (n : nat) (bs : list Z) : option (list A * list Z) :=
   match n with
   | O => Some ([], bs)
@@ -87,7 +110,30 @@ Fixpoint dec_n {A} (d : list Z -> option (A * list Z)) (n : nat) (bs : list Z) :
            end
   end.
 
+(* n items (n is a number READ FROM THE INPUT, possibly huge), by structural recursion on `fuel`, a list at least as
+   long as the input: every item of every sequence of these types takes at least one byte, so more items than
+   remaining bytes cannot be there and postcard runs into the end of the input (DeserializeUnexpectedEnd) *)
+Fixpoint dec_cnt {A} (d : list Z -> option (A * list Z)) (fuel : list Z) (n : Z) (bs : list Z)
+  : option (list A * list Z) :=
+  if n <=? 0 then Some ([], bs) else
+  match fuel with
+  | [] => None
+  | _ :: k => match d bs with
+              | Some (x, r) => match dec_cnt d k (n - 1) r with
+                               | Some (xs, r') => Some (x :: xs, r')
+                               | None => None
+                               end
+              | None => None
+              end
+  end.
+
+(* varint(usize) count, then the items; the unread input itself is the fuel *)
 Definition dec_seq {A} (d : list Z -> option (A * list Z)) (bs : list Z) : option (list A * list Z) :=
+  match varint_dec 10 bs with Some (n, r) => dec_cnt d r n r | None => None end.
+
+(* the plain reading (the count as fuel): equal to dec_seq for item decoders that take at least one byte
+   (dec_seq_eq_naive below), but not computable on a damaged count *)
+Definition dec_seq_naive {A} (d : list Z -> option (A * list Z)) (bs : list Z) : option (list A * list Z) :=
   match varint_dec 10 bs with Some (n, r) => dec_n d (Z.to_nat n) r | None => None end.
 
 Definition dec_words : list Z -> option (list Z * list Z) := dec_seq dec_i64.
@@ -120,6 +166,188 @@ Definition dec_solution (bs : list Z) : option (solution * list Z) :=
   | None => None
   end.
 
+(* ---------- decoders only take a non-empty prefix of the input ---------- *)
+
+(* r is what is left of bs after reading at least one byte *)
+Definition took (bs r : list Z) : Prop := exists pre, bs = pre ++ r /\ (0 < length pre)%nat.
+Definition consumes {A} (d : list Z -> option (A * list Z)) : Prop :=
+  forall bs x r, d bs = Some (x, r) -> took bs r.
+
+Lemma took_trans : forall a b c, took a b -> took b c -> took a c.
+Proof.
+  intros a b c (p1 & E1 & L1) (p2 & E2 & L2). exists (p1 ++ p2). subst a b.
+  rewrite <- app_assoc. split; [reflexivity | rewrite app_length; lia].
+Qed.
+
+Lemma took_sfx : forall a b c, took a b -> (exists pre, b = pre ++ c) -> took a c.
+Proof.
+  intros a b c (p1 & E1 & L1) (p2 & E2). exists (p1 ++ p2). subst a b.
+  rewrite <- app_assoc. split; [reflexivity | rewrite app_length; lia].
+Qed.
+
+Lemma took_length : forall a b, took a b -> (length b < length a)%nat.
+Proof. intros a b (p & E & L). subst a. rewrite app_length. lia. Qed.
+
+(* a varint takes between 1 and `fuel` bytes *)
+Lemma varint_lim_prefix : forall m fuel bs n r,
+  varint_dec_lim m fuel bs = Some (n, r) -> exists pre, bs = pre ++ r /\ (1 <= length pre <= fuel)%nat.
+Proof.
+  intros m. induction fuel as [|f IH]; intros bs n r E; [discriminate|].
+  destruct bs as [|b bs]; [discriminate|]. rewrite varint_dec_lim_S in E.
+  destruct (b <? 128).
+  - assert (E' : bs = r).
+    { destruct f; [destruct (b <=? m); [|discriminate]|]; injection E as _ E; exact E. }
+    subst r. exists [b]. split; [reflexivity | cbn [length]; lia].
+  - destruct (varint_dec_lim m f bs) as [[hi r']|] eqn:E'; [|discriminate].
+    injection E as _ E. subst r'. destruct (IH bs hi r E') as (pre & Ep & Lp).
+    exists (b :: pre). subst bs. split; [reflexivity | cbn [length]; lia].
+Qed.
+
+Lemma varint_dec_consumes : forall fuel, consumes (varint_dec fuel).
+Proof.
+  intros fuel bs n r E. unfold varint_dec in E.
+  destruct (varint_lim_prefix _ fuel bs n r E) as (pre & Ep & Lp). exists pre. split; [exact Ep | lia].
+Qed.
+
+(* a decoded varint is below 128^(fuel-1) * (m+1) when the input consists of bytes *)
+Lemma varint_lim_range : forall m fuel bs n r,
+  0 <= m < 128 -> Forall byte bs -> varint_dec_lim m fuel bs = Some (n, r) ->
+  0 <= n < 128 ^ (Z.of_nat fuel - 1) * (m + 1).
+Proof.
+  intros m. induction fuel as [|f IH]; intros bs n r Hm Hb E; [discriminate|].
+  destruct bs as [|b bs]; [discriminate|]. inversion Hb as [|b0 l0 Hb0 Hbs]; subst.
+  rewrite varint_dec_lim_S in E. unfold byte in Hb0.
+  replace (Z.of_nat (S f) - 1) with (Z.of_nat f) by lia.
+  destruct (Z.ltb_spec b 128) as [Hlt|Hge].
+  - destruct f as [|f'].
+    + destruct (Z.leb_spec b m) as [Hle|_]; [|discriminate]. injection E as E _. subst n.
+      change (128 ^ Z.of_nat 0) with 1. lia.
+    + injection E as E _. subst n. rewrite pow128_succ. pose proof (pow128_pos f') as Hp.
+      split; [lia|]. nia.
+  - destruct (varint_dec_lim m f bs) as [[hi r']|] eqn:E'; [|discriminate].
+    injection E as E _. change (b - 128 + 128 * hi = n) in E. destruct f as [|f']; [discriminate|].
+    pose proof (IH bs hi r' Hm Hbs E') as Hhi.
+    replace (Z.of_nat (S f') - 1) with (Z.of_nat f') in Hhi by lia.
+    rewrite pow128_succ. lia.
+Qed.
+
+Lemma dec_i64_consumes : consumes dec_i64.
+Proof.
+  intros bs x r E. unfold dec_i64 in E. destruct (varint_dec 10 bs) as [[n r']|] eqn:E'; [|discriminate].
+  injection E as _ E. subst r'. exact (varint_dec_consumes 10 bs n r E').
+Qed.
+
+Lemma dec_u8_consumes : consumes dec_u8.
+Proof.
+  intros bs x r E. destruct bs as [|b bs]; [discriminate|]. injection E as _ E. subst r.
+  exists [b]. split; [reflexivity | cbn [length]; lia].
+Qed.
+
+Lemma dec_cnt_unfold {A} (d : list Z -> option (A * list Z)) : forall fuel n bs,
+  dec_cnt d fuel n bs =
+  if n <=? 0 then Some ([], bs) else
+  match fuel with
+  | [] => None
+  | _ :: k => match d bs with
+              | Some (x, r) => match dec_cnt d k (n - 1) r with Some (xs, r') => Some (x :: xs, r') | None => None end
+              | None => None
+              end
+  end.
+Proof. intros fuel n bs. destruct fuel; reflexivity. Qed.
+
+(* whatever dec_cnt returns is what the plain reading returns *)
+Lemma dec_cnt_some {A} (d : list Z -> option (A * list Z)) : forall fuel n bs res,
+  dec_cnt d fuel n bs = Some res -> dec_n d (Z.to_nat n) bs = Some res.
+Proof.
+  induction fuel as [|b k IH]; intros n bs res E; rewrite dec_cnt_unfold in E;
+    destruct (Z.leb_spec n 0) as [Hn|Hn].
+  - replace (Z.to_nat n) with O by lia. exact E.
+  - discriminate.
+  - replace (Z.to_nat n) with O by lia. exact E.
+  - replace (Z.to_nat n) with (S (Z.to_nat (n - 1))) by lia. cbn [dec_n].
+    destruct (d bs) as [[x r]|]; [|discriminate].
+    destruct (dec_cnt d k (n - 1) r) as [[xs r']|] eqn:E1; [|discriminate].
+    rewrite (IH (n - 1) r (xs, r') E1). exact E.
+Qed.
+
+(* with enough fuel, and items that take at least one byte, dec_cnt IS the plain reading *)
+Lemma dec_cnt_eq {A} (d : list Z -> option (A * list Z)) : consumes d ->
+  forall fuel n bs, (length bs <= length fuel)%nat -> dec_cnt d fuel n bs = dec_n d (Z.to_nat n) bs.
+Proof.
+  intros Hc. induction fuel as [|b k IH]; intros n bs L; rewrite dec_cnt_unfold;
+    destruct (Z.leb_spec n 0) as [Hn|Hn].
+  - replace (Z.to_nat n) with O by lia. reflexivity.
+  - replace (Z.to_nat n) with (S (Z.to_nat (n - 1))) by lia. cbn [dec_n].
+    destruct (d bs) as [[x r]|] eqn:E; [|reflexivity].
+    apply Hc in E. apply took_length in E. cbn [length] in L. lia.
+  - replace (Z.to_nat n) with O by lia. reflexivity.
+  - replace (Z.to_nat n) with (S (Z.to_nat (n - 1))) by lia. cbn [dec_n].
+    destruct (d bs) as [[x r]|] eqn:E; [|reflexivity].
+    rewrite IH; [reflexivity|]. apply Hc in E. apply took_length in E. cbn [length] in L. lia.
+Qed.
+
+Lemma dec_seq_eq_naive {A} (d : list Z -> option (A * list Z)) :
+  consumes d -> forall bs, dec_seq d bs = dec_seq_naive d bs.
+Proof.
+  intros Hc bs. unfold dec_seq, dec_seq_naive. destruct (varint_dec 10 bs) as [[n r]|]; [|reflexivity].
+  apply (dec_cnt_eq d Hc). lia.
+Qed.
+
+(* a claimed count above the number of remaining bytes is rejected (after at most that many item reads) *)
+Lemma dec_cnt_short {A} (d : list Z -> option (A * list Z)) : forall fuel n bs,
+  Z.of_nat (length fuel) < n -> dec_cnt d fuel n bs = None.
+Proof.
+  induction fuel as [|b k IH]; intros n bs L; rewrite dec_cnt_unfold; cbn [length] in L;
+    destruct (Z.leb_spec n 0) as [Hn|Hn]; try lia; [reflexivity|].
+  destruct (d bs) as [[x r]|]; [|reflexivity]. rewrite IH by lia. reflexivity.
+Qed.
+
+Lemma dec_n_sfx {A} (d : list Z -> option (A * list Z)) : consumes d ->
+  forall n bs xs r, dec_n d n bs = Some (xs, r) -> exists pre, bs = pre ++ r.
+Proof.
+  intros Hc. induction n as [|n IH]; intros bs xs r E; cbn [dec_n] in E.
+  - injection E as _ E. subst r. exists []. reflexivity.
+  - destruct (d bs) as [[x r1]|] eqn:E1; [|discriminate].
+    destruct (dec_n d n r1) as [[xs' r2]|] eqn:E2; [|discriminate]. injection E as _ E. subst r2.
+    destruct (Hc bs x r1 E1) as (p1 & Ep1 & _). destruct (IH r1 xs' r E2) as (p2 & Ep2).
+    exists (p1 ++ p2). subst bs r1. rewrite <- app_assoc. reflexivity.
+Qed.
+
+Lemma dec_seq_consumes {A} (d : list Z -> option (A * list Z)) : consumes d -> consumes (dec_seq d).
+Proof.
+  intros Hc bs xs r E. unfold dec_seq in E. destruct (varint_dec 10 bs) as [[n r1]|] eqn:E1; [|discriminate].
+  apply dec_cnt_some in E. apply (took_sfx bs r1 r).
+  - exact (varint_dec_consumes 10 bs n r1 E1).
+  - exact (dec_n_sfx d Hc _ _ _ _ E).
+Qed.
+
+Lemma dec_words_consumes : consumes dec_words.
+Proof. exact (dec_seq_consumes dec_i64 dec_i64_consumes). Qed.
+
+Lemma dec_bytes_consumes : consumes dec_bytes.
+Proof. exact (dec_seq_consumes dec_u8 dec_u8_consumes). Qed.
+
+Lemma dec_mutation_consumes : consumes dec_mutation.
+Proof.
+  intros bs x r E. unfold dec_mutation in E.
+  destruct (dec_words bs) as [[k r1]|] eqn:E1; [|discriminate].
+  destruct (dec_words r1) as [[v r2]|] eqn:E2; [|discriminate]. injection E as _ E. subst r2.
+  exact (took_trans _ _ _ (dec_words_consumes _ _ _ E1) (dec_words_consumes _ _ _ E2)).
+Qed.
+
+Lemma dec_solution_consumes : consumes dec_solution.
+Proof.
+  intros bs x r E. unfold dec_solution in E.
+  destruct (dec_bytes bs) as [[c r1]|] eqn:E1; [|discriminate].
+  destruct (dec_bytes r1) as [[p r2]|] eqn:E2; [|discriminate].
+  destruct (dec_seq dec_words r2) as [[d r3]|] eqn:E3; [|discriminate].
+  destruct (dec_seq dec_mutation r3) as [[ms r4]|] eqn:E4; [|discriminate]. injection E as _ E. subst r4.
+  apply (took_trans _ r1); [exact (dec_bytes_consumes _ _ _ E1)|].
+  apply (took_trans _ r2); [exact (dec_bytes_consumes _ _ _ E2)|].
+  apply (took_trans _ r3); [exact (dec_seq_consumes _ dec_words_consumes _ _ _ E3)|].
+  exact (dec_seq_consumes _ dec_mutation_consumes _ _ _ E4).
+Qed.
+
 (* ---------- well-formedness (what the Rust types guarantee) ---------- *)
 
 Definition wf_words (ws : list Z) : Prop := Forall i64 ws /\ zlen ws < 2 ^ 64.
@@ -150,12 +378,14 @@ Proof.
   cbn [length flat_map dec_n]. rewrite <- app_assoc, (Hd x _ Px), (IH rest Pl). reflexivity.
 Qed.
 
+(* (the item decoder must take at least one byte per item: then the unread input is enough fuel) *)
 Lemma dec_seq_roundtrip {A} (f : A -> list Z) (d : list Z -> option (A * list Z)) (P : A -> Prop) :
+  consumes d ->
   (forall x rest, P x -> d (f x ++ rest) = Some (x, rest)) ->
   forall l rest, Forall P l -> zlen l < 2 ^ 64 ->
   dec_seq d (pc_seq f l ++ rest) = Some (l, rest).
 Proof.
-  intros Hd l rest Hf Hl. unfold dec_seq, pc_seq. rewrite <- app_assoc.
+  intros Hc Hd l rest Hf Hl. rewrite (dec_seq_eq_naive d Hc). unfold dec_seq_naive, pc_seq. rewrite <- app_assoc.
   rewrite varint_roundtrip by (unfold zlen in *; lia).
   unfold zlen. rewrite Nat2Z.id. apply (dec_n_roundtrip f d P Hd l rest Hf).
 Qed.
@@ -163,13 +393,13 @@ Qed.
 Lemma dec_words_roundtrip : forall ws rest, wf_words ws -> dec_words (pc_words ws ++ rest) = Some (ws, rest).
 Proof.
   intros ws rest [Hf Hl]. unfold dec_words, pc_words.
-  apply (dec_seq_roundtrip pc_i64 dec_i64 i64 dec_i64_roundtrip ws rest Hf Hl).
+  apply (dec_seq_roundtrip pc_i64 dec_i64 i64 dec_i64_consumes dec_i64_roundtrip ws rest Hf Hl).
 Qed.
 
 Lemma dec_bytes_roundtrip : forall bs rest, zlen bs < 2 ^ 64 -> dec_bytes (pc_bytes bs ++ rest) = Some (bs, rest).
 Proof.
   intros bs rest Hl. unfold dec_bytes, pc_bytes.
-  apply (dec_seq_roundtrip (fun b => [b]) dec_u8 (fun _ => True)); auto.
+  apply (dec_seq_roundtrip (fun b => [b]) dec_u8 (fun _ => True) dec_u8_consumes); auto.
   apply Forall_forall. auto.
 Qed.
 
@@ -190,8 +420,8 @@ Proof.
   rewrite <- !app_assoc.
   rewrite (dec_bytes_roundtrip c _ (wf_address_len c Hc)).
   rewrite (dec_bytes_roundtrip p _ (wf_address_len p Hp)).
-  rewrite (dec_seq_roundtrip pc_words dec_words wf_words dec_words_roundtrip d _ Hd Hdl).
-  rewrite (dec_seq_roundtrip pc_mutation dec_mutation wf_mutation dec_mutation_roundtrip ms _ Hm Hml).
+  rewrite (dec_seq_roundtrip pc_words dec_words wf_words dec_words_consumes dec_words_roundtrip d _ Hd Hdl).
+  rewrite (dec_seq_roundtrip pc_mutation dec_mutation wf_mutation dec_mutation_consumes dec_mutation_roundtrip ms _ Hm Hml).
   reflexivity.
 Qed.
 
